@@ -129,10 +129,15 @@ func newWorld(repo, scratch string) *world {
 	if _, err := jsonsign.GenerateNewSecRing(r3); err != nil {
 		fatal(err)
 	}
-	return &world{k1: loadKey(r1, "26F5ABDA"), k2: loadKey(r2, ""), fresh: loadKey(r3, "")}
+	wd := &world{k1: loadKey(r1, "26F5ABDA"), k2: loadKey(r2, ""), fresh: loadKey(r3, "")}
+	foldDecoy = wd.k2.ref
+	return wd
 }
 
 // ---------------------------------------------------------------- documents
+
+// foldDecoy: the ref of ANOTHER key the signer also holds (set by main), used by the "signerfold" look-alikes
+var foldDecoy blob.Ref
 
 type shape struct {
 	Extra   int
@@ -222,6 +227,12 @@ func buildDoc(s shape, signer blob.Ref) string {
 	if s.Extra != 0 {
 		ms = append(ms, sg) // the signer reference last: right before the separator
 	}
+	if s.Look == "signerfold" {
+		// members whose keys differ from "camliSigner" only by case (ASCII and the Unicode fold of s), placed AFTER the
+		// real one and naming another available key / no key at all: they are ordinary payload, not the signer
+		ms = append(ms, member{"CAMLISIGNER", fmt.Sprintf("%q", foldDecoy.String())}, member{"camlisigner", fmt.Sprintf("%q", foldDecoy.String())},
+			member{"camli\u017figner", fmt.Sprintf("%q", foldDecoy.String())})
+	}
 	return layout(ms, s.Ws)
 }
 
@@ -239,6 +250,8 @@ type subject struct {
 	origSig  blob.Ref
 	keyID    string
 	unsigned string
+	signErr  string // Sign refused the document
+	logged   bool
 }
 
 func (wd *world) fetcherAll() memFetcher {
@@ -259,7 +272,9 @@ func (wd *world) makeSubject(sid int, shp any, unsigned func(blob.Ref) string, s
 	}
 	signed, err := sr.Sign(ctxbg)
 	if err != nil {
-		fatal("Sign failed for", scen, ":", err, "\n", un)
+		// a refusal to sign a well-formed document with an available key is an observation, not a harness problem:
+		// the subject is logged once (base line: nothing verifies) and is not mutated further
+		return &subject{sid: sid, shape: shp, scen: scen, doc: un, fetcher: all, keyID: k1.keyID, unsigned: un, signErr: err.Error(), plen: len(un)}
 	}
 	su := &subject{sid: sid, shape: shp, scen: scen, doc: signed, fetcher: all, keyID: k1.keyID, unsigned: un}
 	switch scen {
@@ -339,6 +354,16 @@ func (su *subject) base() {
 	d := su.doc
 	e := ev{"ev": "base", "sid": su.sid, "shape": su.shape, "scen": su.scen, "kind": "none"}
 	su.lengths(e)
+	if su.signErr != "" {
+		if su.logged {
+			return
+		}
+		su.logged = true
+		e["verdict"], e["psame"], e["keyid"], e["err"] = "reject", "na", "na", "Sign: "+su.signErr
+		e["validjson"], e["keys"], e["lastsep"] = "f", "f", "f"
+		emit(e)
+		return
+	}
 	o := su.verify(d)
 	e["verdict"], e["psame"], e["keyid"] = o.verdict, o.psame, o.keyid
 	if o.err != "" {
@@ -372,6 +397,9 @@ func (su *subject) base() {
 }
 
 func (su *subject) mutate(kind string, off int, nb int) {
+	if su.signErr != "" {
+		return
+	}
 	d := su.doc
 	ob, nx := -1, -1
 	if off < len(d) {
@@ -416,6 +444,9 @@ var subVals = []int{' ', '"', '}', ',', '\\', 0x00, 0x80, ':', '=', 'A', '{', '0
 var insVals = []int{' ', '"', ',', '}', 'A', '=', '\n', 0x80, '0', ':', '\\', '{'}
 
 func (su *subject) sweep(rng *rand.Rand, region, kind, density string, stride, nvals int) {
+	if su.signErr != "" {
+		return
+	}
 	total := len(su.doc)
 	var lo, hi int // [lo, hi)
 	switch region {
